@@ -20,6 +20,8 @@ type Flip struct {
 type EncodeSpec struct {
 	File *ModelFile `json:"file"`
 	Arch string     `json:"arch"`
+	// Prefix: the *bytes.Buffer handed to Encode already holds this many bytes
+	Prefix int `json:"prefix,omitempty"`
 }
 
 type Medium struct {
@@ -47,7 +49,9 @@ type Task struct {
 	Read   ReadPlan   `json:"read"`
 	// WriteFail: the n-th Write call of the sink fails (Encode only; 0 = never)
 	WriteFail int `json:"write_fail,omitempty"`
-	// Sink "buffer": Encode writes into a *bytes.Buffer instead of the simulated writer
+	// Sink "buffer": Encode writes into a *bytes.Buffer instead of the simulated
+	// writer; "buffer+": the buffer already holds bytes, and repeated calls
+	// append to the same buffer (a caller building a chained stream)
 	Sink string `json:"sink,omitempty"`
 	// Between: applied to the File between repeated Encode calls, e.g. "proto:16"
 	// (set Header.ProtocolVersion) - a header that is re-used after a change
@@ -152,7 +156,7 @@ func (sc *Scenario) buildMedia() map[string][]byte {
 		case m.Corpus != "":
 			b = append([]byte(nil), readCorpus(m.Corpus)...)
 		case m.Encode != nil:
-			b = encodeModelFile(m.Encode.File, m.Encode.Arch)
+			b = encodeModelFileInto(m.Encode.File, m.Encode.Arch, m.Encode.Prefix)
 		default:
 			b = unhex(m.Hex)
 		}
